@@ -3,8 +3,10 @@
 (after the checks were strengthened).  The demonstration / test-suite verdicts of the first evaluation (tools/seedeval.py) stand; only `checks`,
 `detected_by` and the command log of meta.json are updated.  /repo is restored afterwards."""
 import json, os, subprocess, sys
-name = sys.argv[1]
-extra = sys.argv[2:]
+args = [a for a in sys.argv[1:] if not a.startswith('--repo=')]
+repo = ([a.split('=', 1)[1] for a in sys.argv[1:] if a.startswith('--repo=')] or ['/repo'])[0]      # a scratch worktree of /repo at HEAD, for parallel re-checks
+name = args[0]
+extra = args[1:]
 d = '/verif/seeded/' + name
 meta = json.load(open(d + '/meta.json'))
 env = dict(os.environ, OMP_NUM_THREADS='1', OPENBLAS_NUM_THREADS='1', MPLBACKEND='Agg')
@@ -15,19 +17,20 @@ def sh(cmd, timeout=5400):
     return r.returncode, r.stdout + r.stderr
 
 
-assert sh('git -C /repo status --porcelain --untracked-files=no')[1].strip() == '', '/repo not clean'
-rc, out = sh('git -C /repo apply %s/patch.diff' % d)
+assert sh('git -C %s status --porcelain --untracked-files=no' % repo)[1].strip() == '', repo + ' not clean'
+rc, out = sh('git -C %s apply %s/patch.diff' % (repo, d))
 assert rc == 0, out
 results = {}
 try:
     for cid in [meta['property']] + extra:
-        rcc, outc = sh('/verif/check %s --tier quick' % cid)
+        rcc, outc = sh('VERIF_REPO=%s /verif/check %s --tier quick' % (repo, cid))
         rej = [ln for ln in outc.split('\n') if ln.startswith('REJECTED')]
         results[cid] = {'exit': rcc, 'rejected_lines': len(rej), 'first': rej[:3], 'tail': outc.strip().split('\n')[-1][:300]}
-        meta['ran'].append('(re-check) git -C /repo apply patch.diff && ./check %s --tier quick -> exit %d' % (cid, rcc))
+        meta['ran'].append('(re-check) git -C %s apply patch.diff && VERIF_REPO=%s ./check %s --tier quick -> exit %d' % (repo, repo, cid, rcc))
 finally:
-    sh('git -C /repo checkout -- .')
-    sh('git -C /verif checkout -- evidence')          # evidence written with the patch applied is not evidence about /repo
+    sh('git -C %s checkout -- .' % repo)
+    if repo == '/repo':
+        sh('git -C /verif checkout -- evidence')          # evidence written with the patch applied is not evidence about /repo
 meta['checks'] = results
 meta['detected_by'] = [c for c, r in results.items() if r['exit'] == 1]
 json.dump(meta, open(d + '/meta.json', 'w'), indent=1)
